@@ -10,10 +10,10 @@ use flac_codec::encode::{FlacByteWriter, FlacSampleWriter};
 use serde_json::{json, Value};
 use std::io::{Cursor, Write};
 
-pub const RULE: &str = "write histories: (A) ALL compositions of an 18-unit (thorough 21) mono 8-bit input into write calls for the byte, sample and channel writers; (B,C) all histories with ≤2 (thorough ≤3 on B) cut points, plus a zero-length call at every position, on stereo 16-bit (17 PCM frames), 3-channel 24-bit (33 PCM frames), mono 12-bit (40) inputs, inputs that are exact multiples of the block size (stereo 16-bit 32 PCM frames, mono 8-bit 16, mono 32-bit 48) and ≤3 cuts on a mono 16-bit input of 70 PCM frames (4 blocks + remainder; byte writers ≤2 cuts) in the writer's native unit (bytes: cuts fall mid-sample and mid-PCM-frame); (D) trailing partial PCM frames of every possible length after 0, 5, 16 and 17 whole frames; × {byte LE, byte BE, sample, channel} × declared/undeclared × two option sets × history mode {plain; io::Write::flush after every write call (byte writers); writer dropped instead of finalized (≤1-cut histories)}; oracle = byte identity with the single-call sample-writer file; plus the path-based `create` constructors with overwrite() over an absent / shorter / much longer existing file (3 signal formats × 4 writers × declared/undeclared), compared with the in-memory file; reference-file hashes are compared across the 16 worker processes (run-to-run determinism)";
+pub const RULE: &str = "write histories: (A) ALL compositions of an 18-unit (thorough 23) mono 8-bit input into write calls for the byte, sample and channel writers; (B,C) all histories with ≤2 (thorough ≤3 on B) cut points, plus a zero-length call at every position, on stereo 16-bit (17 PCM frames), 3-channel 24-bit (33 PCM frames), mono 12-bit (40) inputs, inputs that are exact multiples of the block size (stereo 16-bit 32 PCM frames, mono 8-bit 16, mono 32-bit 48) and ≤3 cuts on a mono 16-bit input of 70 PCM frames (4 blocks + remainder; byte writers ≤2 cuts) in the writer's native unit (bytes: cuts fall mid-sample and mid-PCM-frame); (D) trailing partial PCM frames of every possible length after 0, 5, 16 and 17 whole frames; × {byte LE, byte BE, sample, channel} × declared/undeclared × two option sets × history mode {plain; io::Write::flush after every write call (byte writers); writer dropped instead of finalized (≤1-cut histories)}; oracle = byte identity with the single-call sample-writer file; plus the path-based `create` constructors with overwrite() over an absent / shorter / much longer existing file (3 signal formats × 4 writers × declared/undeclared), compared with the in-memory file; reference-file hashes are compared across the 16 worker processes (run-to-run determinism)";
 pub const ASSUMPTIONS: &[&str] = &["PCM content is the fixed position-identifying signal; histories, not sample values, are the explored dimension here (values: C01)"];
 pub fn bounds(quick: bool) -> Value {
-    json!({"compositions_n": if quick {18} else {21}, "max_cuts_B": if quick {2} else {3}, "max_cuts_C": 2, "partial_lengths": "all 1..w*ch-1 bytes / 1..ch-1 samples"})
+    json!({"compositions_n": if quick {18} else {23}, "max_cuts_B": if quick {2} else {3}, "max_cuts_C": 2, "partial_lengths": "all 1..w*ch-1 bytes / 1..ch-1 samples"})
 }
 
 fn fast_opt() -> Opt {
@@ -181,7 +181,7 @@ pub fn run(ctx: &Ctx, acc: &mut Acc) {
     disk(ctx, acc);
     let q = ctx.quick;
     // ---------- (A) all compositions
-    let n = if q { 18 } else { 21 };
+    let n = if q { 18 } else { 23 };
     for opt in [Opt { declared: true, ..Opt::base16() }, Opt { declared: false, ..fast_opt() }] {
         let job = Job { name: "A-mono8", sig: Sig { rate: 44100, bps: 8, ch: 1 }, pcm: ident_pcm(1, 8, n), opt };
         let reference = encode(WriterKind::Sample, &job.opt, &job.sig, &job.pcm);
